@@ -25,6 +25,10 @@ CHECKS = {
    technique="TLA+ spec Checkpoint.tla (run/checkpoint/die/restart/continue with a lossy channel) model-checked with TLC using constants measured on the real code per configuration; real restarts through torchtree.main compared leaf by leaf (state_dict, parameters, dtypes, nn flags), resumed vs uninterrupted parameter-state sequences, update counts",
    text="For every configuration (Optimizer x SGD+momentum/Adam/Adagrad/RMSprop/LBFGS x StepLR/LambdaLR x float32/float64 x nn.Parameter, ELBO objective, two-stage documents with several -c files; MCMC x sliding/scaler/Dirichlet/HMC diag+dense with AdaptiveStepSize/DualAveraging/MassMatrixAdaptor) the run is interrupted at every checkpoint, restarted through the command-line entry point, and every leaf of the run state is compared before/after, the resumed parameter-state sequence is compared with the uninterrupted run and the number of applied updates is compared; TLC explores every interruption point and repeated restarts of the loop bookkeeping for the measured constants and must agree with the real runs.",
    note="RNG state at the checkpoint is re-installed by the harness (the library does not checkpoint it); interruption points = iterations at which a checkpoint is written; Sampler and normalising-flow modules are not covered."),
+ "C04": dict(level="exploration", design="4/C04",
+   technique="TLA+ spec SubstQ.tla: exact-rational rate matrices of every model family, invariants (rows sum to zero, non-negative off-diagonals, unit rate, detailed balance, stationarity) model-checked with TLC over a parameter lattice; TLC-emitted exact Q replayed into the real models (q(), p_t vs mpmath expm of the spec's Q, consequences, batches, update histories); transliteration validated against TLC for off-lattice random and near-defective parameters",
+   text="TLC proves the matrix invariants exactly on 54 lattice cases (JC69, GeneralJC69, HKY, GTR, general symmetric with every mapping on 3 states, general non-symmetric, empirical) and emits the exact normalised Q; the real models' q() must equal it (1e-12) and p_t(t) must equal expm(Qt) at six branch lengths (1e-9), plus rows/P(0)/semigroup/stationarity/detailed balance on the implementation's output, batched parameters vs slices, parameter-update histories on a live model, random parameters over 1e-4..1e4, near-defective non-reversible matrices, MG94 for the genetic codes against an independent structural definition and LG/WAG.",
+   note="The TLA+ part decides the discrete structure and normalisation exactly; the matrix exponential itself is compared numerically against mpmath (30 digits) / numpy scaling-and-squaring: this is the numerical half stated in DESIGN 2.4. Genetic-code tables are taken from datatype.py."),
 }
 
 PENDING = {}
